@@ -58,7 +58,7 @@ ParCSRMatrix* read_par_mm(const char *fname)
         return NULL;
     }
 
-    int row_nnz = nz / M;
+    int row_nnz = M ? nz / M : 0;
     ParCOOMatrix* A = new ParCOOMatrix(M, N);
     A->on_proc->vals.reserve(row_nnz);
     A->off_proc->vals.reserve(row_nnz);
